@@ -10,6 +10,7 @@ def run_check(tier, seed, replay=None):
         return replay_hex(c, "C02", replay)
     wd = workdir("c02")
     mc_predict(c, wd, tier)
+    tlaps(c, "DiffProof", wd)
     gen = gen_streams(wd, tier, seed + 3)
     res = replay_generated(c, wd, gen)
     n, acc = account(c, res, "C02", "generated")
